@@ -155,9 +155,9 @@ func init() {
 			"a Get error is legal only when the Channel is closed or the driver cancelled that Get's own context",
 		},
 		Families: []core.Family{
-			{Name: "concurrent-porcupine", N: core.TierN(2000, 30000), Batch: 50, Run: c13Concurrent},
+			{Name: "concurrent-porcupine", N: core.TierN(2000, 120000), Batch: 50, Run: c13Concurrent},
 			{Name: "seq-exhaustive", N: core.TierN(5, 25), Batch: 1, Run: c13Seq},
-			{Name: "close-race", N: core.TierN(48, 480), Batch: 3, Run: c13CloseRace},
+			{Name: "close-race", N: core.TierN(48, 1920), Batch: 3, Run: c13CloseRace},
 		},
 	})
 }
